@@ -19,7 +19,7 @@ def sh(cmd, cwd=None, timeout=600):
 
 def main():
     os.makedirs(GEN, exist_ok=True)
-    names = ["src:inmem-lock-discipline", "src:ent-guarded-update"]
+    names = ["src:inmem-lock-discipline", "src:ent-guarded-update", "src:ent-recovery-update"]
     tool = os.path.join(GEN, "go2coq")
     rc, out = sh("go build -o %s ." % tool, cwd=os.path.join(ROOT, "tools", "go2coq"))
     if rc != 0:
@@ -30,7 +30,8 @@ def main():
     facts = out
     res = []
     for name, ok_fn, vio_fn, arg in [(names[0], "inmem_discipline_ok", "inmem_violations", "inmem_lock_facts"),
-                                     (names[1], "ent_discipline_ok", "ent_violations", "ent_update_facts")]:
+                                     (names[1], "ent_discipline_ok", "ent_violations", "ent_update_facts"),
+                                     (names[2], "rec_discipline_ok", "rec_violations", "ent_recovery_facts")]:
         f = os.path.join(GEN, "SrcGen.v")
         open(f, "w").write(facts + "\nEval vm_compute in %s %s.\n" % (vio_fn, arg)
                            + "Theorem obligation : %s %s = true.\nProof. vm_compute. reflexivity. Qed.\nPrint Assumptions obligation.\n" % (ok_fn, arg))
